@@ -10,6 +10,9 @@
 #include <AIToolbox/Utils/Polytope.hpp>
 
 #include <AIToolbox/POMDP/Types.hpp>
+#ifdef AITB_VERIF
+#include <AIToolbox/Verif/Hooks.hpp>
+#endif
 #include <AIToolbox/POMDP/TypeTraits.hpp>
 #include <AIToolbox/MDP/Model.hpp>
 #include <AIToolbox/POMDP/Model.hpp>
@@ -280,7 +283,16 @@ namespace AIToolbox::POMDP {
 
         AI_LOGGER(AI_SEVERITY_INFO, "Initial bounds: " << lb << ", " << ub);
 
+#ifdef AITB_VERIF
+        unsigned verifIteration_ = 0;
+#endif
         while (true) {
+#ifdef AITB_VERIF
+            if (Verif::anytimeObserver) {
+                const Verif::AnytimeSnapshot snap{"GapMin", verifIteration_++, lb, ub, &lbVList, &ubQ, &ubV};
+                if (!Verif::anytimeObserver(snap)) break;
+            }
+#endif
             double threshold = std::pow(10, std::ceil(std::log10(std::max(std::fabs(ub), std::fabs(lb))))-precisionDigits_);
             auto var = ub - lb;
 
